@@ -359,8 +359,12 @@ def run_case(c, maxdigits):
         elif op == 'split':
             s = a[0]
             c.line = 'split ' + enc(s)
-            h, p = util._split_address(s)
-            c.impl = enc(h) + ' ' + enc(p)
+            got = facts_c18.split_observe(util, s)       # through NetAddress.from_string, not by name
+            if got is None or not (isinstance(got[0], str) and isinstance(got[1], str)):
+                c.line = None                            # not observable on this tree: nothing to compare
+                c.impl = 'unobservable'
+            else:
+                c.impl = enc(got[0]) + ' ' + enc(got[1])
         elif op == 'ip4':
             s = a[0]
             c.line = 'ip4 ' + enc(s)
@@ -581,6 +585,10 @@ def evaluate(ctx, cases, res, tag):
     md = ctx.facts.get('max_str_digits', sys.get_int_max_str_digits())
     for c in cases:
         run_case(c, md)
+    skipped = [c for c in cases if c.line is None]
+    if skipped:
+        res.count('not_observable:' + skipped[0].op, len(skipped))
+        cases = [c for c in cases if c.line is not None]
     model = ctx.model([c.line for c in cases])
     for i, c in enumerate(cases):
         if c.viol:
@@ -1213,6 +1221,7 @@ def run(ctx):
         done[0] = maxlen
     if (key, f'alphabet_addr8:{maxlen2}') in _DONE:
         done[1] = maxlen2
+    res['scopes']['split_rows_in_facts'] = len(ctx.facts.get('split_table', [])) if isinstance(ctx.facts, dict) else 0
     res['scopes']['alphabet15_max_len'] = done[0]
     res['scopes']['alphabet_addr8_max_len'] = done[1]
     # (e) exhaustive: integers and their renderings
